@@ -114,6 +114,33 @@ def cms(repo, chk):
                 chk.unsure('C15.1c', 'R6', badd.site(c), ast.unparse(c)[:100], f'the weight handed to add() in batch_add is not the parameter `{bweight}` itself')
             else:
                 chk.ok('C15.1c', 'R6', badd.site(c), ast.unparse(c)[:100], 'every item of a batch is added with the weight of the batch')
+    # every update of the matrix goes through the one update routine (whose cell address is the hash query() reads): a second writer - a vectorised batch
+    # update that addresses the cells itself - is a second implementation of the address, and that the two agree for every item is not decided here
+    cls_methods = {q: f for q, f in repo.mod(CMS).funcs.items() if q.startswith('CountMinSketch.') and q.count('.') == 1}
+    for q, f in sorted(cls_methods.items()):
+        if f.name == '__init__':
+            continue
+        for n in own_nodes(f.node):
+            w = None
+            if isinstance(n, (ast.Assign, ast.AugAssign)):
+                for t in (n.targets if isinstance(n, ast.Assign) else [n.target]):
+                    b = t
+                    while isinstance(b, ast.Subscript):
+                        b = b.value
+                    if b is not t and isinstance(b, ast.Attribute) and isinstance(b.value, ast.Name) and b.value.id == 'self' and b.attr == 'M':
+                        w = n
+            elif isinstance(n, ast.Call) and isinstance(n.func, ast.Attribute) and n.func.attr == 'at' and n.args:
+                b = n.args[0]
+                while isinstance(b, ast.Subscript):
+                    b = b.value
+                if isinstance(b, ast.Attribute) and isinstance(b.value, ast.Name) and b.value.id == 'self' and b.attr == 'M':
+                    w = n
+            if w is not None:
+                chk.unsure('C15.2d', 'R2', f.site(w), ast.unparse(w)[:100], f'{f.name} writes cells of the matrix itself instead of going through the update routine of add(): the address it computes is a second '
+                           'implementation of the hash that query() reads; that it is the same cell for every item (and every width / integer width of the intermediate sums) is not decided')
+                break
+    if not any(o.oid == 'C15.2d' for o in chk.obs):
+        chk.ok('C15.2d', 'R2', repo.mod(CMS).relpath, f'{len(cls_methods)} method(s) of CountMinSketch', 'the matrix is written by the update routine of add() only')
     for f in (add_s, add, repo.func(CMS, 'CountMinSketch.batch_add')):
         dv = f.node.args.defaults
         pn = f.params
